@@ -43,6 +43,15 @@ Theorem c17_join_contained : forall style root rel, safe_rel rel ->
 Proof. exact join_contained. Qed.
 Print Assumptions c17_join_contained.
 
+(* ... and onto a VERBATIM Windows root (`\\?\C:\cache`), where PathBuf::push replays the argument's
+   components instead of appending text: the root's components stay a prefix and only ordinary
+   components (not "..", ".", "") are added *)
+Theorem c17_join_verbatim_contained : forall root_components rel, safe_rel rel ->
+  exists t, verbatim_push root_components (split_seps rel) = root_components ++ t /\
+            Forall (fun c => c <> dotdot /\ c <> [] /\ c <> [46]) t.
+Proof. intros b rel [_ [_ H]]. exact (verbatim_push_appends (split_seps rel) b H). Qed.
+Print Assumptions c17_join_verbatim_contained.
+
 (* The tree before the fix of F-C17a ([lookup_gen false]: every leaf used as it is)
    violates each of the three conditions; debug files "..", "" and "C:evil.pdb". *)
 Definition id33 : str := repeat 48 33.   (* DebugId::nil().breakpad() = "0" x 33 *)
@@ -114,7 +123,8 @@ Example c17_nonvacuous_join :
   join Posix [47;115] [97;47;98] = [47;115;47;97;47;98] /\
   join Windows [67;58;92;115] [97;47;98] = [67;58;92;115;92;97;47;98] /\
   join Windows [67;58] [97] = [67;58;97] /\
-  join Posix [47;115;47] [] = [47;115;47] /\ join Posix [47;115] [] = [47;115;47].
+  join Posix [47;115;47] [] = [47;115;47] /\ join Posix [47;115] [] = [47;115;47] /\
+  verbatim_push [[99]; [100]] (split_seps [46;46;47;97;47;46;47;47;98]) = [[99]; [97]; [98]].   (* c\d + "../a/.//b" *)
 Proof. repeat split; vm_compute; reflexivity. Qed.
 (* moz_lookup pops one *character*: "a/1/é" -> "a/1/_" *)
 Example c17_nonvacuous_moz :
